@@ -936,6 +936,159 @@ part_msgq(int depth)
 	}
 }
 
+// ---- Part D: identifiers of public objects (sockets, contexts, listeners, dialers, pipes) -------------
+// All sequences of open / close letters to the depth bound over up to three sockets, with contexts,
+// listeners, dialers (each dial makes a pipe on both ends) coming and going.  Every identifier the
+// library hands out must be in 1..0x7fffffff, differ from every live identifier of its kind and
+// never repeat an identifier issued earlier in the run (the range cannot wrap in a few steps);
+// a closed handle must not resolve any more.
+#define HMAX 64
+typedef struct hset {
+	uint32_t ever[HMAX];
+	int      n;
+} hset;
+static hset H_sock, H_ctx, H_lst, H_dlr, H_pipe;
+static char h_seq[200];
+static void
+h_issue(hset *h, const char *kind, int64_t id)
+{
+	if (id < 1 || id > 0x7fffffff)
+		vs_fail("C18:handle:range", "[%s] %s identifier %lld outside 1..0x7fffffff", h_seq,
+		    kind, (long long) id);
+	for (int i = 0; i < h->n; i++)
+		if (h->ever[i] == (uint32_t) id)
+			vs_fail("C18:handle:reissued",
+			    "[%s] %s identifier %lld was issued before in this run (the range has "
+			    "not wrapped)",
+			    h_seq, kind, (long long) id);
+	if (h->n < HMAX)
+		h->ever[h->n++] = (uint32_t) id;
+}
+static void
+h_pipe_cb(nng_pipe p, nng_pipe_ev ev, void *arg)
+{
+	(void) arg;
+	if (ev == NNG_PIPE_EV_ADD_PRE)
+		h_issue(&H_pipe, "pipe", nng_pipe_id(p));
+}
+static void
+run_handles(void *arg)
+{
+	int depth = (int) (intptr_t) arg;
+	vh_init(0);
+	memset(&H_sock, 0, sizeof(H_sock));
+	memset(&H_ctx, 0, sizeof(H_ctx));
+	memset(&H_lst, 0, sizeof(H_lst));
+	memset(&H_dlr, 0, sizeof(H_dlr));
+	memset(&H_pipe, 0, sizeof(H_pipe));
+	h_seq[0] = 0;
+	nng_socket   S[3];
+	int          so[3] = { 0, 0, 0 };
+	nng_ctx      C[4];
+	int          nc = 0;
+	nng_listener L[3];
+	int          lo[3] = { 0, 0, 0 };
+	nng_dialer   D[4];
+	int          nd = 0;
+	// start state (forced prefix 0,5 or 0,5,6): a REP socket with a listener, maybe a peer
+	int pre  = 2 + vs_choose(VK_ENV, 2);
+	static const int PRE[] = { 0, 5, 6 };
+	for (int step = 0; step < pre + depth; step++) {
+		int l = step < pre ? PRE[step] : vs_choose(VK_ENV, 8);
+		snprintf(h_seq + strlen(h_seq), sizeof(h_seq) - strlen(h_seq), "%s%d", step ? "," : "", l);
+		int k = -1;
+		switch (l) {
+		case 0: // open a socket (REP: has contexts) in the first free slot
+			for (int i = 0; i < 3 && k < 0; i++)
+				if (!so[i])
+					k = i;
+			if (k >= 0) {
+				VH_OK(nng_rep0_open(&S[k]));
+				so[k] = 1;
+				h_issue(&H_sock, "socket", nng_socket_id(S[k]));
+				VH_OK(nng_pipe_notify(S[k], NNG_PIPE_EV_ADD_PRE, h_pipe_cb, NULL));
+			}
+			break;
+		case 1: // close the lowest open socket
+		case 2: // close the highest open socket
+			for (int i = 0; i < 3; i++)
+				if (so[i] && (k < 0 || l == 2))
+					k = i;
+			if (k >= 0) {
+				VH_OK(nng_socket_close(S[k]));
+				so[k] = lo[k] = 0;
+				nng_socket x;
+				(void) x;
+				int v;
+				if (nng_socket_get_int(S[k], NNG_OPT_RECVBUF, &v) == 0)
+					vs_fail("C18:handle:alive", "[%s] closed socket id still resolves",
+					    h_seq);
+			}
+			break;
+		case 3: // open a context on the lowest open socket
+			for (int i = 0; i < 3 && k < 0; i++)
+				if (so[i])
+					k = i;
+			if (k >= 0 && nc < 4) {
+				VH_OK(nng_ctx_open(&C[nc], S[k]));
+				h_issue(&H_ctx, "context", nng_ctx_id(C[nc]));
+				nc++;
+			}
+			break;
+		case 4: // close the newest context
+			if (nc > 0) {
+				nc--;
+				(void) nng_ctx_close(C[nc]); // (its socket may be gone already)
+			}
+			break;
+		case 5: // a listener on the lowest open socket that has none
+			for (int i = 0; i < 3 && k < 0; i++)
+				if (so[i] && !lo[i])
+					k = i;
+			if (k >= 0) {
+				char url[40];
+				snprintf(url, sizeof(url), "inproc://c18h-%d", k);
+				VH_OK(nng_listen(S[k], url, &L[k], 0));
+				lo[k] = 1;
+				h_issue(&H_lst, "listener", nng_listener_id(L[k]));
+			}
+			break;
+		case 6: { // a REQ socket dials the lowest listener (a pipe on each end), kept open
+			for (int i = 0; i < 3 && k < 0; i++)
+				if (so[i] && lo[i])
+					k = i;
+			int free_slot = -1;
+			for (int i = 0; i < 3 && free_slot < 0; i++)
+				if (!so[i])
+					free_slot = i;
+			if (k >= 0 && free_slot >= 0 && nd < 4) {
+				char url[40];
+				snprintf(url, sizeof(url), "inproc://c18h-%d", k);
+				VH_OK(nng_req0_open(&S[free_slot]));
+				so[free_slot] = 1;
+				h_issue(&H_sock, "socket", nng_socket_id(S[free_slot]));
+				VH_OK(nng_pipe_notify(S[free_slot], NNG_PIPE_EV_ADD_PRE, h_pipe_cb, NULL));
+				VH_OK(nng_dial(S[free_slot], url, &D[nd], 0));
+				h_issue(&H_dlr, "dialer", nng_dialer_id(D[nd]));
+				nd++;
+			}
+		} break;
+		default: // close the newest dialer (its pipe goes; the socket stays)
+			if (nd > 0) {
+				nd--;
+				(void) nng_dialer_close(D[nd]);
+			}
+			break;
+		}
+		vs_settle();
+	}
+	vs_outcome("s%d c%d l%d d%d p%d", H_sock.n, H_ctx.n, H_lst.n, H_dlr.n, H_pipe.n);
+	for (int i = 0; i < 3; i++)
+		if (so[i])
+			nng_socket_close(S[i]);
+	vh_fini();
+}
+
 int
 main(int argc, char **argv)
 {
@@ -953,5 +1106,20 @@ main(int argc, char **argv)
 	    "%d over 7 letters, caps 0..2",
 	    T ? 14 : 9, T ? 9 : 5, T ? 6 : 4);
 	part_msgq(T ? 6 : 4);
+	{
+		vx_cfg c;
+		memset(&c, 0, sizeof(c));
+		char name[40];
+		int  d = T ? 6 : 4;
+		snprintf(name, sizeof(name), "handles-d%d", d);
+		c.prop           = "C18";
+		c.scenario       = name;
+		c.run            = run_handles;
+		c.arg            = (void *) (intptr_t) d;
+		c.budget[VB_ENV] = -1;
+		vx_explore(&c, NULL);
+		vx_note("handles", "public object identifiers: all sequences of depth %d over 8 open/close "
+		    "letters (sockets, contexts, listeners, dialers + pipes)", d);
+	}
 	return vx_finish();
 }
